@@ -817,7 +817,8 @@ class Engine:
                         proc = procs.ApiProcess(LABELS[label_i])
                     shape = ["codegen", sorted(pending), "same_process" if built_in_this_proc else "other_process",
                              "library_loaded_before_in_this_process" if loaded_in_this_proc else "first_load_in_this_process",
-                             "models_held" if job.get("hold_models") else "models_dropped"]
+                             # (a model kept for later use - knob hold_models, or a deferred observation - keeps its libraries mapped)
+                             "models_held" if job.get("hold_models") or deferred else "models_dropped"]
                     states.add(canon.digest((job["model"], optset, tuple(sorted(pending)), built_in_this_proc, loaded_in_this_proc,
                                              have_cache, "codegen")))
                     if crashed_in:
